@@ -225,6 +225,7 @@ type runner struct {
 	idpH  string // IdP host (no port)
 	idpP  string
 	dump  bool
+	pool  *cookiePool
 }
 
 type sigSet struct {
@@ -445,39 +446,55 @@ func (rn *runner) do(rq sut.Req) *sut.Resp {
 	return rs
 }
 
-// liveCookie returns a sealed authenticator cookie of the requested kind and a cleanup.
-func (rn *runner) cookie(r *rand.Rand, kind string) (cookies []string, cleanup func()) {
+// Sealing a session costs a gzip writer (~1 MB of fresh memory, expensive under the race detector),
+// so every stack gets a small pool of pre-sealed authenticator cookies per kind; the IdP answers for
+// their tokens stay scripted for the life of the stack.
+type cookiePool struct {
+	byKind map[string][]string
+}
+
+func (rn *runner) buildPool() {
 	as := rn.as
+	rn.pool = &cookiePool{byKind: map[string][]string{}}
+	mk := func(kind string, n int) {
+		for k := 0; k < n; k++ {
+			s := as.Session(fmt.Sprintf("user%d-%s@corp.test", k, kind))
+			as.IdP.Set("revoke", s.RefreshToken, sut.Answer{Status: 200, Body: ""})
+			switch kind {
+			case "live":
+				as.IdP.Set("introspect", s.AccessToken, sut.IntrospectOK(true))
+			case "live-revoke-fails":
+				as.IdP.Set("introspect", s.AccessToken, sut.IntrospectOK(true))
+				as.IdP.Set("revoke", s.RefreshToken, sut.Status(500))
+			case "inactive":
+				as.IdP.Set("introspect", s.AccessToken, sut.IntrospectOK(false))
+			case "lifetime-expired":
+				s.LifetimeDeadline = time.Now().Add(-time.Hour)
+			}
+			rn.pool.byKind[kind] = append(rn.pool.byKind[kind], as.CookieName+"="+as.SealCookie(s))
+		}
+	}
+	mk("live", 6)
+	mk("live-revoke-fails", 2)
+	mk("inactive", 2)
+	mk("lifetime-expired", 2)
+}
+
+// cookie returns the Cookie header pairs for the requested kind.
+func (rn *runner) cookie(r *rand.Rand, kind string) (cookies []string, cleanup func()) {
 	cleanup = func() {}
 	switch kind {
 	case "none":
 		return nil, cleanup
 	case "garbage":
-		return []string{as.CookieName + "=" + randWord(r, 40+r.Intn(100))}, cleanup
-	}
-	s := as.Session("user" + randWord(r, 5) + "@corp.test")
-	switch kind {
+		return []string{rn.as.CookieName + "=" + randWord(r, 40+r.Intn(100))}, cleanup
 	case "live":
-		as.IdP.Set("introspect", s.AccessToken, sut.IntrospectOK(true))
 		if r.Intn(8) == 0 {
-			as.IdP.Set("revoke", s.RefreshToken, sut.Status(500))
-		} else {
-			as.IdP.Set("revoke", s.RefreshToken, sut.Answer{Status: 200, Body: ""})
+			kind = "live-revoke-fails"
 		}
-	case "inactive":
-		as.IdP.Set("introspect", s.AccessToken, sut.IntrospectOK(false))
-		as.IdP.Set("revoke", s.RefreshToken, sut.Answer{Status: 200, Body: ""})
-	case "lifetime-expired":
-		s.LifetimeDeadline = time.Now().Add(-time.Hour)
-		as.IdP.Set("revoke", s.RefreshToken, sut.Answer{Status: 200, Body: ""})
 	}
-	cleanup = func() {
-		as.IdP.Unset("introspect", s.AccessToken)
-		as.IdP.Unset("revoke", s.RefreshToken)
-		as.IdP.Calls("introspect", s.AccessToken)
-		as.IdP.Calls("revoke", s.RefreshToken)
-	}
-	return []string{as.CookieName + "=" + as.SealCookie(s)}, cleanup
+	p := rn.pool.byKind[kind]
+	return []string{p[r.Intn(len(p))]}, cleanup
 }
 
 func pick(r *rand.Rand, weighted ...interface{}) string {
@@ -1157,6 +1174,7 @@ func TestProp(t *testing.T) {
 		if k := strings.LastIndexByte(hp, ':'); k >= 0 {
 			rn.idpH, rn.idpP = hp[:k], hp[k+1:]
 		}
+		rn.buildPool()
 		rep.SetAdd("root_domain_configs", strings.Join(cfg.Roots, ","))
 		lo := ci * perConfig
 		o := -1
